@@ -356,8 +356,11 @@ def r5(ctx):
     lw = wb.methods["load_workflow"]
     g = lw.cfg
     resets = [n for n in g.nodes.values() if n.kind == "stmt" and isinstance(n.ast, ast.Assign) and unparse(n.ast.targets[0]).endswith(".persistent_id") and unparse(n.ast.value) == "None"]
-    tests = [n for n in g.nodes.values() if n.kind == "test" and unparse(n.ast) == "self.deep_copy"]
-    ok = bool(resets) and bool(tests) and all(any(r.id in g.reach([b], include_src=True) for r in resets) for t in tests for b, k in g.succ[t.id] if k == "t")
+    from ..facts import edge_for
+
+    _deep = lambda a, v: v and unparse(a) == "self.deep_copy"  # noqa: E731
+    tests = [n for n in g.nodes.values() if n.kind == "test" and n.ast is not None and edge_for(n.ast, _deep)]
+    ok = bool(resets) and bool(tests) and all(any(r.id in g.reach([b], include_src=True) for r in resets) for t in tests for b, k in g.succ[t.id] if k == edge_for(t.ast, _deep))
     loads = [n for n in g.nodes.values() if any(isinstance(c.func, ast.Attribute) and c.func.attr == "load" for c in n.calls())]
     ok = ok and all(g.dominates([l.id for l in loads], r.id) for r in resets)
     ctx.ob("R5", "a deep-copied workflow loses its persistent id after loading", ok, func=lw, node=lw.node, instance="builder:load_workflow",
